@@ -244,4 +244,10 @@ def fixed_chains():
             ('BD{dict}', CompositionOperator([BlockDiagonalOperator({'x': A, 'y': B2}), BlockDiagonalOperator({'x': B2, 'y': A})])),
             ('A+B', AdditionOperator([A, B2])), ('Add[A]', AdditionOperator([A])),
             ('BD[I,I]', BlockDiagonalOperator([I, I])), ('BD.I', bd.I), ('BD.T', bd.T)]
+    # block containers whose blocks hold no array data (only static fields)
+    out += [('BD[W,W]', BlockDiagonalOperator([W, W])), ('BD{W,W}', BlockDiagonalOperator({'f1': W, 'f2': W})),
+            ('BD[Lp,Lp]', BlockDiagonalOperator([Lp, Lp])), ('BD[Mv,Mv]', BlockDiagonalOperator([Mv, Mv])),
+            ('BD[Lp,Lp],BD[W,W]', CompositionOperator([BlockDiagonalOperator([Lp, Lp]), BlockDiagonalOperator([W, W])])),
+            ('BD[Rv,(Mv,Mv)]', BlockDiagonalOperator({'a': (Mv, Mv), 'b': RavelOperator(in_structure=s)})),
+            ('BD[W,I]', BlockDiagonalOperator([W, IdentityOperator(st)]))]
     return out
